@@ -16,7 +16,7 @@ from bctmc.tally import Tally
 
 PROPERTY = 'C17'
 RULE = ('threshold_proportional: all matrices over {0,1,2,3} on 1-2 nodes (p*count = 0.5 is reachable only there), all symmetric matrices over {0,1,2,3} on 3-4 nodes and all matrices over {0,1,2,3} '
-        'on 3 nodes and binary on 4 nodes, zero and non-zero diagonal, p on the dyadic grid j/32 (j=0..32) plus '
+        'on 3 nodes and binary on 4 nodes, zero and non-zero diagonal (every third matrix also with a NaN and an infinite diagonal), p on the dyadic grid j/32 (j=0..32) plus '
         '0.1,0.3,0.7, copy in {True,False} (thorough: symmetric {0,1,2} on 5 nodes, {0,1,2} on 4 nodes with p=j/8); '
         'other utilities: all matrices over {-2,-1,0,1,2} on 3 nodes and symmetric on 4 nodes x thr in every value '
         'and midpoint; non-trivial = (matrix,p) where p*M falls on x.5, or where weights tie across the cut, or '
@@ -64,13 +64,17 @@ def with_diag(A, variant):
     A = A.copy()
     if variant == 'diag':
         np.fill_diagonal(A, [5.0 + k for k in range(len(A))])
+    elif variant == 'nandiag':
+        np.fill_diagonal(A, np.nan)          # the usual way of marking self-connections as missing
+    elif variant == 'infdiag':
+        np.fill_diagonal(A, np.inf)
     return A
 
 
 def check_copy(t, fname, case, arg, before, out, copy):
     """copy=True: argument untouched, result a different buffer; copy=False: result is the argument."""
     if copy:
-        if not np.array_equal(arg, before) or arg.dtype != before.dtype:
+        if not np.array_equal(arg, before, equal_nan=True) or arg.dtype != before.dtype:
             t.viol(fname, 'copy_true_argument_untouched', case, observed=arg, expected=before)
         if out is arg or (isinstance(out, np.ndarray) and np.shares_memory(out, arg)):
             t.viol(fname, 'copy_true_returns_new_array', case)
@@ -94,7 +98,8 @@ def _check_tp(t, W, arg, p, copy, case):
         return False
     check_copy(t, 'threshold_proportional', case, arg, W, out, copy)
     out = np.asarray(out, dtype=float)
-    W0 = W - np.diag(np.diag(W))
+    W0 = W.copy()
+    np.fill_diagonal(W0, 0)          # (not W - diag(W): the diagonal may hold NaN or inf)
     sym = np.array_equal(W0, W0.T)
     ud = 2 if sym else 1
     exact = Fraction(p) * (n * n - n) / ud
@@ -255,7 +260,7 @@ def work(unit):
     for idx in range(a, b):
         A = ss.dir_graph(n, alpha, idx) if directed else ss.und_graph(n, alpha, idx)
         ETYPES[0] = (idx % 5 == 0) or n <= 2
-        for variant in ('plain', 'diag'):
+        for variant in (('plain', 'diag', 'nandiag', 'infdiag') if (kind == 'tp' and idx % 3 == 0) else ('plain', 'diag')):
             W = with_diag(A, variant)
             base = {'family': name, 'index': idx, 'variant': variant, 'W': W}
             if kind == 'tp':
